@@ -1427,3 +1427,5 @@ PROPS["C18"]["level_note"] += (' The ground-truth RULE is no longer trusted OCam
     'ocaml/run_scan.ml: ground_truth: parsing the case line (population after the last change, call of the last change), the clean / two-sweeps '
     'bookkeeping and printing the offending addresses. That the harness environment really is silent outside the population (harness/src/scan.rs) is '
     'the hypothesis `explained` of the theorems, not proved about the Rust harness.')
+PROPS["C18"]["level_note"] += (' That hypothesis is evaluated (extracted `explained`) on the crate transcript of every clean checked case; a violation '
+    'would be counted as truth:window-not-explained (absent from the distribution = never violated).')
